@@ -18,7 +18,7 @@ ASSUMPTIONS = ['data excludes ~ * : (the converter\'s fixed output delimiters; X
                'the component separator (it is the value of ISA16) is a character XML 1.0 can represent; segment and element separators may be control characters',
                'the id of the <comp> wrapper element is not asserted (the property names elements and components)',
                'the intended map path of each segment is the generator\'s ground truth (unambiguous sub-language, DESIGN 4.1)']
-REQUIRED_COUNTERS = ['docs', 'segments-compared', 'elements-compared', 'subelements-compared', 'roundtrips', 'docs:escaped-chars', 'docs:repeated-loop', 'docs:notused-filled', 'reach:x12xml_simple.seg']
+REQUIRED_COUNTERS = ['docs:with-doctype', 'docs', 'segments-compared', 'elements-compared', 'subelements-compared', 'roundtrips', 'docs:escaped-chars', 'docs:repeated-loop', 'docs:notused-filled', 'reach:x12xml_simple.seg']
 MIN_CASES = {'quick': 200, 'thorough': 6000}
 WATCHDOG_S = {'quick': 1200, 'thorough': 7200}
 
@@ -80,7 +80,17 @@ def judge(ctx, doc, terms, case, sigs):
     seg_t, ele_t, sub_t = terms
     text = doc.text(seg_t, ele_t, sub_t, '\n' if seg_t != '\n' else '')
     ctx.count('docs')
-    res = pipeline.validate(text, charset=doc.charset, ack=False, xml=True)
+    prm = None
+    if case.get('simple_dtd'):
+        # configuration: a DTD named for the simple form -> a DOCTYPE declaration in the rendering, which must stay well formed and convertible
+        import pyx12.params
+        prm = pyx12.params.params()
+        prm.set('charset', doc.charset)
+        prm.set('simple_dtd', case['simple_dtd'])
+        ctx.count('docs:with-doctype')
+    res = pipeline.validate(text, charset=doc.charset, ack=False, xml=True, params=prm)
+    if res.exc is None and case.get('simple_dtd') and '<!DOCTYPE' not in (res.xml or '')[:400]:
+        ctx.viol('xml:doctype-missing', 'simple_dtd is configured but the rendering has no DOCTYPE declaration', case, {'xml_head': (res.xml or '')[:300]})
     if res.exc is not None:
         ctx.viol('xml:x12n_document:%s' % res.exc_key, 'rendering a structurally valid document to XML raised', case, {'exc': repr(res.exc)[:300], 'tb': res.exc_tb})
         return
@@ -240,7 +250,7 @@ def run(ctx):
             if len(doc.recs) > 1500:
                 ctx.count('skipped-large')
                 continue
-            case = {'map': e['file'], 'entry': e, 'gen_seed': seed, 'params': kw, 'terms': list(terms)}
+            case = {'map': e['file'], 'entry': e, 'gen_seed': seed, 'params': kw, 'terms': list(terms), 'simple_dtd': [None, 'x12simple.dtd', None, 'http://example.invalid/dtd/x12simple.dtd', None][k % 5]}
             judge(ctx, doc, terms, case, sigs)
             n += 1
             ctx.sample({'map': label, 'terms': list(terms), 'segments': len(doc.recs), 'text_head': doc.text(*terms)[:400]})
